@@ -584,11 +584,13 @@ def api_case(job):
     pt, ps, pd = (os.path.join(d, n) for n in ("t.map", "s.map", "d.map"))
     case = {"scenario": "api", "j": j, "seed": seed, "walk": walk, "hist": fe, "text": text}
     kw = api_lay(gen["lay"])
-    state = {"mem": None, "s_ref": None}
+    state = {"mem": None, "s_ref": None, "ref_s": None}
 
     def check_read(op, of, post, fn):
-        """a reader must return the dictionary the contract predicts (= what loads returned)"""
+        """a reader must return the dictionary the string API returns for the same characters, with
+        every string value in the character classes the spec predicts"""
         info["calls"] += 1
+        want_proj, want_leaves = (exp, exp_leaves) if of == "t" else state["ref_s"]
         try:
             got_d = fn()
         except Exception as ex:  # noqa: BLE001
@@ -598,8 +600,8 @@ def api_case(job):
             return None
         got = project.project(got_d)
         gl = leaves(got)
-        if [p for p, _ in gl] == [p for p, _ in exp_leaves]:
-            for (p, ev), (_, gv) in zip(exp_leaves, gl):
+        if [p for p, _ in gl] == [p for p, _ in want_leaves]:
+            for (p, ev), (_, gv) in zip(want_leaves, gl):
                 if isinstance(ev, str) and ev in by_val:
                     i = by_val[ev]
                     want = post["strs"][i - 1]
@@ -608,13 +610,13 @@ def api_case(job):
                         if "cr" in want and untranslate_eq(ev, gv):
                             sig = "C20|roundtrip|CR-in-string|%s" % op
                             what = ("a string value with a carriage return (%r) comes back as %r through %s (%s); loads keeps it"
-                                    % (ev, gv, op, "file written from the generated text" if of == "t" else "file written by save"))
+                                    % (ev, gv, op, "file holding the generated text" if of == "t" else "file written by save"))
                         else:
                             sig = "C20|read|%s|%s" % (op, kind)
                             what = "string value %r (classes %s) comes back as %r through %s" % (ev, want, gv, op)
                         finds.append((sig, what, dict(case, path=list(p), expected=ev, got=gv)))
                         return got_d
-        df = project.diff(exp, got)
+        df = project.diff(want_proj, got)
         if df:
             finds.append(("C20|read|%s|%s" % (op, df[1]), "%s returns a different dictionary than loads at %s: %s, %s vs %s" % (
                 op, list(df[0]), df[1], df[2], df[3]), case))
@@ -664,9 +666,12 @@ def api_case(job):
                 state["mem"] = mem
                 try:
                     state["s_ref"] = mappyfile.dumps(mem, **kw)
-                    back = mappyfile.loads(state["s_ref"], expand_includes=False)
-                    if project.diff(exp, project.project(back)):
-                        info["skipped"] = "loads(dumps(d)) differs from d: C01"
+                    back = project.project(mappyfile.loads(state["s_ref"], expand_includes=False))
+                    state["ref_s"] = (back, leaves(back))
+                    # the string API must itself keep the string values (C01); otherwise not a front-end matter
+                    if sorted(v for _, v in state["ref_s"][1] if isinstance(v, str) and v in by_val) != \
+                            sorted(v for _, v in exp_leaves if isinstance(v, str) and v in by_val):
+                        info["skipped"] = "loads(dumps(d)) loses a string value: C01"
                         break
                 except Exception as ex:  # noqa: BLE001
                     info["skipped"] = "dumps/loads raised %s: C01/C03" % type(ex).__name__
@@ -675,8 +680,8 @@ def api_case(job):
                 p = pt if act["of"] == "t" else ps
                 if a == "open":
                     check_read(a, act["of"], act["post"], lambda: mappyfile.open(p, expand_includes=False))
-                elif a == "loads":
-                    check_read(a, act["of"], act["post"], lambda: mappyfile.loads(state["s_ref"], expand_includes=False))
+                elif a == "loads":          # loads(dumps(d)): the reference of this phase, computed above
+                    info["calls"] += 1
                 else:
                     def rd(p=p, raw=(a == "loadraw")):
                         with (open(p, encoding="utf-8", newline="") if raw else open(p, encoding="utf-8")) as fp:
@@ -747,7 +752,10 @@ def run(tier):
     quick = tier == "quick"
     rng = random.Random(seed)
     n_api = 200 if quick else 3000
+    import time
+    t0 = time.time()
     res = run_tlc(ck, quick, seed, n_api)
+    t_tlc = time.time() - t0
     val, fmt, sch = split_cli(res["c20_cli"].prints)
     if len(val) < 4000 or len(fmt) < 1600 or len(sch) != 8:
         raise common.MachineryFailure("TLC emitted %d/%d/%d configurations" % (len(val), len(fmt), len(sch)))
@@ -759,6 +767,7 @@ def run(tier):
     if len(walks) < len(fes) * 0.8:
         raise common.MachineryFailure("only %d generated documents carry string values" % len(walks))
     root = tempfile.mkdtemp(prefix="verif_c20_")
+    t_walks = time.time() - t0 - t_tlc
     try:
         # api behaviours on generated documents (worker processes: every call builds its own Parser)
         jobs = [(j, w, fe, seed, root) for j, (w, fe) in enumerate(zip(walks, fes))]
@@ -785,6 +794,7 @@ def run(tier):
         if missing and not quick:
             raise common.MachineryFailure("string kinds never exercised: %s" % sorted(missing))
         ck.sample({"api_behaviour": [a["a"] + ("/" + a["of"] if "of" in a else "") for a in fes[0]], "kinds": fes[0][0]["kinds"], "layout": fes[0][0]["lay"]})
+        t_api = time.time() - t0 - t_tlc - t_walks
         # command line: validate, format, schema
         vsel = select_validate(val, 60, rng) if quick else val
         fsel = select_format(fmt, 24, rng) if quick else fmt
@@ -797,6 +807,8 @@ def run(tier):
             raise common.MachineryFailure("exported schemas do not depend on the version")
     finally:
         shutil.rmtree(root, ignore_errors=True)
+    ck.notes.append("wall: TLC %.1fs, document walks %.1fs, api replay %.1fs, command-line replay %.1fs" % (
+        t_tlc, t_walks, t_api, time.time() - t0 - t_tlc - t_walks - t_api))
     labels = {}
     for h in vsel:
         labels[validate_label(h)] = labels.get(validate_label(h), 0) + 1
